@@ -362,7 +362,7 @@ func c04PageLSN(c *Ctx, rule string) {
 				if allowed[f.Name] {
 					c.OK(rule, key, sel.Pos(), 1, "store in an owner function")
 				} else {
-					c.Fail(rule, key, sel.Pos(), "%s is stored outside markDirty/markClean/decode: a page can change without carrying the LSN of the change (or be marked clean without a write)", v.Name())
+					c.FailConfined(rule, key, sel.Pos(), "%s is stored outside markDirty/markClean/decode: a page can change without carrying the LSN of the change (or be marked clean without a write)", v.Name())
 				}
 			}
 			return true
